@@ -17,7 +17,9 @@
 //    op: si:<id> sin (SendMessageToInternalThread, Message / NULL)   so:<id> son (SendMessageToOwner)
 //        rp rn rt (GetNextReplyFromInternalThread poll / never / timed)   st (StartInternalThread)
 //        sd0 sd1 (ShutdownInternalThread(false/true))   jn (WaitForInternalThreadToExit)   gs (GetOwnerWakeupSocket)
-//        -- everything but si/so only in thread 0.
+//        ur uu (RegisterOwnerThreadSocket / UnregisterOwnerThreadSocket of the case's user socket, SOCKET_SET_READ)
+//        up (write a byte to the other end of that socket: it becomes ready-for-read)   ue (read it empty)
+//        -- everything but si/so/up only in thread 0.
 //    The internal thread's MessageReceivedFromOwner reacts to Message <id> as react(id) below (replies / exit).
 //    f=1 (optional head entry): "fine" run -- EVERY Mutex lock in muscle (object pools, socket pool, ..) is a decision point, so
 //       threads also interleave inside StartInternalThread / CreateConnectedSocketPair etc.  The Coq LTS has no such steps, so
@@ -56,7 +58,8 @@
 using namespace muscle;
 using namespace vsched;
 
-enum { OP_SI = 0, OP_SO, OP_RECV, OP_START, OP_SHUTDOWN, OP_JOIN, OP_GETSOCK };
+enum { OP_SI = 0, OP_SO, OP_RECV, OP_START, OP_SHUTDOWN, OP_JOIN, OP_GETSOCK, OP_USER };
+enum { U_REG = 0, U_UNREG, U_PING, U_EAT };
 enum { W_POLL = 0, W_NEVER, W_TIMED };
 struct Op { int kind; long arg; bool null; };     // arg: message id / wake kind / wait flag
 
@@ -127,8 +130,12 @@ static bool parse_case(const std::string & line, Case & c)
       else if (o == "sd1") {op.kind = OP_SHUTDOWN; op.arg = 1;}
       else if (o == "jn") op.kind = OP_JOIN;
       else if (o == "gs") op.kind = OP_GETSOCK;
+      else if (o == "ur") {op.kind = OP_USER; op.arg = U_REG;}
+      else if (o == "uu") {op.kind = OP_USER; op.arg = U_UNREG;}
+      else if (o == "up") {op.kind = OP_USER; op.arg = U_PING;}
+      else if (o == "ue") {op.kind = OP_USER; op.arg = U_EAT;}
       else return false;
-      if (t != 0 && op.kind != OP_SI && op.kind != OP_SO) return false;    // only the owner receives / controls the life cycle
+      if (t != 0 && op.kind != OP_SI && op.kind != OP_SO && !(op.kind == OP_USER && op.arg == U_PING)) return false;    // only the owner receives / controls the life cycle
       if ((int) t > maxT) maxT = (int) t;
       toks.push_back(std::make_pair((int) t, op));
    }
@@ -142,18 +149,22 @@ static bool parse_case(const std::string & line, Case & c)
    return true;
 }
 
-// the subclass's reaction to Message <id>, the same function as in ocaml/threadq_driver.ml
-static void react(long id, std::vector<long> & replies /* -1 = a NULL reply */, bool & quit)
+// the subclass's reaction to Message <id>, the same function as in ocaml/threadq_driver.ml: Messages to send -- replies to the
+// owner (channel 1) or further work for the internal thread itself (channel 0, SendMessageToInternalThread) -- and "exit now"
+struct Out { int ch; long id; };      // id -1 = a NULL Message
+static void react(long id, std::vector<Out> & outs, bool & quit)
 {
-   replies.clear(); quit = false;
+   outs.clear(); quit = false;
+   Out o; o.ch = 1;
    switch(id % 8)
    {
-      case 2: replies.push_back(1000+id*10); break;
-      case 3: replies.push_back(1000+id*10); replies.push_back(1000+id*10+1); break;
-      case 4: replies.push_back(1000+id*10); quit = true; break;
+      case 1: o.ch = 0; o.id = 2000+id*8; outs.push_back(o); break;                                   // to itself (a Message that causes no further reaction)
+      case 2: o.id = 1000+id*10; outs.push_back(o); break;
+      case 3: o.id = 1000+id*10; outs.push_back(o); o.id = 1000+id*10+1; outs.push_back(o); break;
+      case 4: o.id = 1000+id*10; outs.push_back(o); quit = true; break;
       case 5: quit = true; break;
-      case 6: replies.push_back(-1); break;
-      case 7: replies.push_back(1000+id*10); replies.push_back(1000+id*10+1); replies.push_back(1000+id*10+2); break;
+      case 6: o.id = -1; outs.push_back(o); break;
+      case 7: o.id = 1000+id*10; outs.push_back(o); o.id = 1000+id*10+1; outs.push_back(o); o.id = 1000+id*10+2; outs.push_back(o); break;
       default: break;
    }
 }
@@ -180,6 +191,7 @@ public:
 
 struct Run {
    TestThread * tt;                      // heap; leaked when threads are abandoned
+   ConstSocketRef uA, uB;                // the case's user socket (uA is what the owner registers) and its other end
    const Case * c;
    // --- oracle bookkeeping (independent of the model)
    std::vector<long> snap[2];            // last observed content of each queue (ids, -1 = NULL)
@@ -203,6 +215,13 @@ static int chan_of_obj(const void * p)
       if (!g_run->c->sockets && p == (const void *) &t._waitCondition.GetObject()) return ch;
    }
    return -1;
+}
+
+static int fd_bytes(int fd)
+{
+   if (fd < 0) return 0;
+   int n = 0;
+   return (ioctl(fd, FIONREAD, &n) == 0) ? n : 0;
 }
 
 static int sock_bytes(int ch)
@@ -234,6 +253,11 @@ static std::string dump_state()
       o << "/" << sock_bytes(ch) << "/";
       if (g_run->c->sockets) o << 0; else o << tsd_of(ch)._waitCondition.GetObject()._pendingNotificationsCount;
    }
+   {
+      // the owner's SOCKET_SET_READ table: is the user socket registered, bytes readable on it, its isFlagged value
+      const Hashtable<ConstSocketRef, bool> & tab = t._threadData[1]._socketSets[Thread::SOCKET_SET_READ];
+      o << "|u" << (tab.ContainsKey(g_run->uA) ? 1 : 0) << "," << fd_bytes(g_run->uA.GetFileDescriptor()) << "," << (tab.GetWithDefault(g_run->uA, false) ? 1 : 0);
+   }
    o << "}";
    return o.str();
 }
@@ -254,6 +278,14 @@ static void refresh_readable()
          {
             struct pollfd p; p.fd = fd; p.events = POLLIN; p.revents = 0;
             if (poll(&p, 1, 0) > 0 && (p.revents & (POLLIN|POLLHUP|POLLERR))) r = 1;
+            // ... and the user-registered sockets select() would watch as well
+            for (uint32 i=0; i<Thread::NUM_SOCKET_SETS; i++)
+               for (HashtableIterator<ConstSocketRef, bool> iter(tsd_of(ch)._socketSets[i], HTIT_FLAG_NOREGISTER); iter.HasData(); iter++)
+               {
+                  struct pollfd q; q.fd = iter.GetKey().GetFileDescriptor(); q.revents = 0;
+                  q.events = (i == Thread::SOCKET_SET_READ) ? POLLIN : ((i == Thread::SOCKET_SET_WRITE) ? POLLOUT : POLLPRI);
+                  if (q.fd >= 0 && poll(&q, 1, 0) > 0 && (q.revents & (q.events|POLLHUP|POLLERR))) r = 1;
+               }
          }
       }
       g_readable[ch] = r;
@@ -307,16 +339,18 @@ status_t TestThread :: MessageReceivedFromOwner(const MessageRef & ref, uint32 n
    char buf[64]; snprintf(buf, sizeof(buf), "R%s/%u", id_text(ref).c_str(), (unsigned) numLeft); Scheduler::Note(buf);
    oracle_received(0, id_of(ref));
    if (ref() == NULL) return B_SHUTTING_DOWN;
-   std::vector<long> replies; bool quit;
-   react((long) ref()->what, replies, quit);
-   for (size_t i=0; i<replies.size(); i++)
+   std::vector<Out> outs; bool quit;
+   react((long) ref()->what, outs, quit);
+   for (size_t i=0; i<outs.size(); i++)
    {
+      const int ch = outs[i].ch; const long id = outs[i].id;
       {
          std::unique_lock<std::mutex> lk(g_freeMutex, std::defer_lock); if (g_free) lk.lock();
-         g_run->sentCount[1][replies[i]]++;
-         if (g_free) g_run->order[1].push_back(replies[i]);    // the only sender of replies in a free run: this is the queue order
+         g_run->sentCount[ch][id]++;
+         if (g_free) g_run->order[ch].push_back(id);    // (free runs have one sender per queue: the owner, or this thread) -- see below
       }
-      (void) SendMessageToOwner((replies[i] < 0) ? MessageRef() : GetMessageFromPool((uint32) replies[i]));
+      MessageRef m = (id < 0) ? MessageRef() : GetMessageFromPool((uint32) id);
+      if (ch == 0) (void) SendMessageToInternalThread(m); else (void) SendMessageToOwner(m);
    }
    return quit ? B_ERROR("quit") : B_NO_ERROR;
 }
@@ -413,6 +447,13 @@ static void thread_body(int me)
             if (ret.IsOK()) {char b[48]; snprintf(b, sizeof(b), "m%s/%u", id_text(m).c_str(), (unsigned) left); res = b; oracle_received(1, id_of(m));}
             else if (ret == B_TIMED_OUT) res = "to";
             else if (ret == B_BAD_OBJECT) res = "bo";
+            else if (ret == B_IO_READY)
+            {
+               res = "io";
+               const Hashtable<ConstSocketRef, bool> & tab = tt._threadData[1]._socketSets[Thread::SOCKET_SET_READ];
+               if (!(tab.ContainsKey(r.uA) && fd_bytes(r.uA.GetFileDescriptor()) > 0)) oracle_fail("B_IO_READY although no registered user socket is ready");
+               if (!tt.IsOwnerThreadSocketReady(r.uA, Thread::SOCKET_SET_READ)) oracle_fail("B_IO_READY but IsOwnerThreadSocketReady() says no");
+            }
             else {res = std::string("err:") + ret(); oracle_fail("unexpected status from GetNextReplyFromInternalThread");}
             break;
          }
@@ -437,6 +478,17 @@ static void thread_body(int me)
          {
             const status_t ret = tt.WaitForInternalThreadToExit();
             res = ret.IsOK() ? "ok" : ((ret == B_BAD_OBJECT) ? "bo" : (std::string("err:") + ret()));
+            break;
+         }
+         case OP_USER:
+         {
+            if (op.arg == U_REG || op.arg == U_UNREG)
+            {
+               const status_t ret = (op.arg == U_REG) ? tt.RegisterOwnerThreadSocket(r.uA, Thread::SOCKET_SET_READ) : tt.UnregisterOwnerThreadSocket(r.uA, Thread::SOCKET_SET_READ);
+               res = ret.IsOK() ? "ok" : ((ret == B_BAD_OBJECT) ? "bo" : ((ret == B_DATA_NOT_FOUND) ? "nf" : (std::string("err:") + ret())));
+            }
+            else if (op.arg == U_PING) {const char b = 'u'; (void) send_ignore_eintr(r.uB.GetFileDescriptor(), &b, 1, 0); res = "v";}
+            else {char buf[256]; while(recv_ignore_eintr(r.uA.GetFileDescriptor(), buf, sizeof(buf), 0) > 0) {/* empty */} res = "v";}
             break;
          }
          default:
@@ -465,6 +517,7 @@ static void run_case_free(long k, const Case & c)
    g_run = r; g_fine = false; g_free = true; g_curCase = k;
    r->c = &c;
    r->tt = new TestThread(c.sockets, c.evd);
+   (void) CreateConnectedSocketPair(r->uA, r->uB, false);
    for (int ch=0; ch<2; ch++) {r->snap[ch].clear(); r->order[ch].clear(); r->nrecv[ch] = 0; r->sentCount[ch].clear(); r->recvCount[ch].clear();}
    r->oracle.clear();
    signal(SIGALRM, on_watchdog);
@@ -516,6 +569,7 @@ static void setup_run(Run & r, const Case & c, Scheduler & s)
 {
    r.c = &c;
    r.tt = new TestThread(c.sockets, c.evd);
+   (void) CreateConnectedSocketPair(r.uA, r.uB, false);
    for (int ch=0; ch<2; ch++) {r.snap[ch].clear(); r.order[ch].clear(); r.nrecv[ch] = 0; r.sentCount[ch].clear(); r.recvCount[ch].clear();}
    r.oracle.clear();
    g_readable[0] = g_readable[1] = 0;
@@ -543,6 +597,8 @@ static void judge_end(Run & r, const Result & res)
                break;
             }
          }
+         if (parked && ch == 1 && tsd_of(1)._socketSets[Thread::SOCKET_SET_READ].ContainsKey(r.uA) && fd_bytes(r.uA.GetFileDescriptor()) > 0)
+            oracle_fail("lost wake-up: the owner is parked for ever although its registered user socket is ready-for-read: " + res.detail);
          if (parked && tsd_of(ch)._messages.HasItems())
          {
             std::ostringstream o; o << "lost wake-up: the reader of queue " << CH[ch] << " is parked for ever while " << tsd_of(ch)._messages.GetNumItems() << " Message(s) are queued: " << res.detail;
@@ -593,6 +649,8 @@ static void cleanup_run(Run * r, Scheduler * s, const Result & res)
    {
       // abandoned threads are parked for ever inside the scheduler and still reference these objects: leak them, but give the descriptors back
       for (int ch=0; ch<2; ch++) r->tt->_threadData[ch]._messageSocket.Reset();
+      for (uint32 i=0; i<Thread::NUM_SOCKET_SETS; i++) r->tt->_threadData[1]._socketSets[i].Clear();
+      r->uA.Reset(); r->uB.Reset();
    }
 }
 
@@ -639,7 +697,12 @@ static void explore_case(const Case & c, int maxPre, size_t maxRuns)
             if (cur->tt->IsInternalThreadRunning()) (void) cur->tt->WaitForInternalThreadToExit();
             delete cur->tt; delete cur;
          }
-         else for (int ch=0; ch<2; ch++) cur->tt->_threadData[ch]._messageSocket.Reset();
+         else
+         {
+            for (int ch=0; ch<2; ch++) cur->tt->_threadData[ch]._messageSocket.Reset();
+            for (uint32 i=0; i<Thread::NUM_SOCKET_SETS; i++) cur->tt->_threadData[1]._socketSets[i].Clear();
+            cur->uA.Reset(); cur->uB.Reset();
+         }
          cur = NULL; g_run = NULL;
          return true;
       });
